@@ -38,7 +38,7 @@ func settable(v reflect.Value) reflect.Value {
 }
 
 func isSync(t reflect.Type) bool {
-	return t.PkgPath() == "sync" || t.PkgPath() == "sync/atomic"
+	return t.PkgPath() == "sync" // locks, Once, WaitGroup: quiescent between runs; sync/atomic values are plain state and copied as they are
 }
 
 func deepCopy(dst, src reflect.Value, depth int) {
@@ -98,6 +98,9 @@ func deepCopy(dst, src reflect.Value, depth int) {
 func deepRestore(live, snap reflect.Value, depth int) {
 	t := snap.Type()
 	if isSync(t) {
+		if t.Name() != "Cond" && live.CanSet() {
+			live.Set(reflect.Zero(t)) // between runs nothing holds it: a lock is free again, a Once guards state that has just been put back
+		}
 		return
 	}
 	if depth > 8 || foreign(t) {
